@@ -13,12 +13,12 @@ theorem listOps_cases (k : String) (hp : provedStrict.contains k = true)
     (hu : unaryOps.contains k = false) :
     k = "$add" ∨ k = "$multiply" ∨ k = "$subtract" ∨ k = "$divide" ∨ k = "$mod" ∨ k = "$pow" ∨
     k = "$eq" ∨ k = "$ne" ∨ k = "$gt" ∨ k = "$gte" ∨ k = "$lt" ∨ k = "$lte" ∨
-    k = "$size" ∨ k = "$concatArrays" ∨ k = "$concat" ∨ k = "$arrayElemAt" := by
+    k = "$size" ∨ k = "$concatArrays" ∨ k = "$concat" ∨ k = "$arrayElemAt" ∨ k = "$strcasecmp" := by
   simp only [provedStrict, arithOps, datePartOps, List.cons_append, List.nil_append,
     List.contains_cons, List.contains_nil, Bool.or_false, Bool.or_eq_true, beq_iff_eq] at hp
   rcases hp with rfl | rfl | rfl | rfl | rfl | rfl | rfl | rfl | rfl | rfl | rfl | rfl | rfl | rfl
     | rfl | rfl | rfl | rfl | rfl | rfl | rfl | rfl | rfl | rfl | rfl | rfl | rfl | rfl | rfl | rfl
-    | rfl | rfl | rfl <;>
+    | rfl | rfl | rfl | rfl | rfl | rfl | rfl <;>
   first
     | (revert hu; decide)
     | simp
@@ -29,7 +29,7 @@ theorem wholeOps_cases (k : String) (hp : provedStrict.contains k = true)
     List.contains_cons, List.contains_nil, Bool.or_false, Bool.or_eq_true, beq_iff_eq] at hp
   rcases hp with rfl | rfl | rfl | rfl | rfl | rfl | rfl | rfl | rfl | rfl | rfl | rfl | rfl | rfl
     | rfl | rfl | rfl | rfl | rfl | rfl | rfl | rfl | rfl | rfl | rfl | rfl | rfl | rfl | rfl | rfl
-    | rfl | rfl | rfl <;>
+    | rfl | rfl | rfl | rfl | rfl | rfl | rfl <;>
   first
     | (revert hu; decide)
     | simp [wholeProved, datePartOps]
@@ -40,9 +40,9 @@ theorem list_strict (c : Ctx) (hign : c.ign = true) (k : String)
     (xs : List Val) (vs : List (Option Val)) (h1 : xs.map (eval c) = vs.map .ok)
     (hr : strictReasons k vs = []) (r : Option Val) (hs : applyStrict k vs = .ok r) :
     eval c (.doc [(k, .arr xs)]) = .ok r := by
-  rcases listOps_cases k hp hu with h | h | h | h | h | h | h | h | h | h | h | h | h | h | h | h
-  · exact nary_case c hign k (Or.inl h) xs vs h1 hr r hs
-  · exact nary_case c hign k (Or.inr h) xs vs h1 hr r hs
+  rcases listOps_cases k hp hu with h | h | h | h | h | h | h | h | h | h | h | h | h | h | h | h | h
+  · exact nary_case c hign k (Or.inl h) xs vs h1 r hs
+  · exact nary_case c hign k (Or.inr h) xs vs h1 r hs
   · exact binary_case c hign k (Or.inl h) xs vs h1 hr r hs
   · exact binary_case c hign k (Or.inr (Or.inl h)) xs vs h1 hr r hs
   · exact binary_case c hign k (Or.inr (Or.inr (Or.inl h))) xs vs h1 hr r hs
@@ -57,6 +57,7 @@ theorem list_strict (c : Ctx) (hign : c.ign = true) (k : String)
   · exact concat_case c hign k (Or.inl h) xs vs h1 r hs
   · exact concat_case c hign k (Or.inr h) xs vs h1 r hs
   · subst h; exact elemAt_case c xs vs h1 hr r hs
+  · subst h; exact strcasecmp_case c xs vs h1 r hs
 
 theorem wholeProved_mode (k : String) (hk : k ∈ wholeProved) (v : Val) (ha : v.isArr = false)
     (htz : hasTzKeys v = false) :
@@ -64,7 +65,7 @@ theorem wholeProved_mode (k : String) (hk : k ∈ wholeProved) (v : Val) (ha : v
   simp only [wholeProved, datePartOps, List.cons_append, List.nil_append, List.mem_cons,
     List.mem_nil_iff, or_false] at hk
   rcases hk with rfl | rfl | rfl | rfl | rfl | rfl | rfl | rfl | rfl | rfl | rfl | rfl | rfl | rfl
-    | rfl | rfl | rfl | rfl | rfl <;>
+    | rfl | rfl | rfl | rfl | rfl | rfl | rfl | rfl <;>
   refine ⟨?_, _, rfl, ?_, ?_, ?_⟩ <;>
   first
     | decide
